@@ -29,6 +29,12 @@ import Driver.Util
         -> err config                                   (reading the buf.yaml fails)
          | cfg <eff> top <eff|none> rep ok <fa>;…       (module config, top-level config, report)
          | cfg <eff> top <eff|none> rep err <class>
+    ykeys <ver> <l|b> <hexModuleDir> <wsSection> <modSection>
+        -> err config | cfg <eff> rules ok <id>,<id>,…  (Client.ConfiguredRules on the module's config)
+         | cfg <eff> rules err <class>
+    keytab <ver> <l|b>
+        -> rules <id>,…  cats <id>,…      (sorted: every id `use` / `except` / `ignore_only` accept
+                                            for that rule type in that version)
         eff : d=<disabled> u=<use> x=<except> g=<ignore> o=<ignoreOnly sorted by key> f=<aci><iup><db><same><ereq><eresp>
               z=<hex suffix> s=<hex suffix>
 -/
@@ -195,6 +201,23 @@ def handle : List String → String
            | .error e => "err " ++ e.tag
          "cfg " ++ showEff eff ++ " top " ++ topS ++ " rep " ++ rep)
     | _, _, _, _, _, _, _, _, _ => "bad-op"
+  | ["ykeys", ver, ty, dir, ws, md] =>
+    match parseVer ver, parseType ty, hexDecode dir, parseSection ws, parseSection md with
+    | some v, some lint, some dir, some ws, some md =>
+      (match readYaml lint (v == .v2) (s2l dir) ws md with
+       | .error e => "err " ++ e.tag
+       | .ok (eff, _) =>
+         let rep := match configuredEff (rulesOf v) lint eff with
+           | .ok ids => "ok " ++ ",".intercalate ids
+           | .error e => "err " ++ e.tag
+         "cfg " ++ showEff eff ++ " rules " ++ rep)
+    | _, _, _, _, _ => "bad-op"
+  | ["keytab", ver, ty] =>
+    match parseVer ver, parseType ty with
+    | some v, some lint =>
+      let rs := rulesForType (rulesOf v) lint
+      "rules " ++ ",".intercalate (usIds (ruleIdsOf rs)) ++ " cats " ++ ",".intercalate (usIds (categoryIdsOf rs))
+    | _, _ => "bad-op"
   | _ => "bad-op"
 
 def run : IO Unit := runLines handle
